@@ -205,7 +205,8 @@ Definition nonzero_offs (ss : list seg) : Prop := Forall (fun s => sg_off s <> 0
 Definition wal_ok (w : walfile) : Prop :=
   match snd w with
   | [] => False
-  | s0 :: rest => sg_idx s0 = fst w /\ sg_off s0 = 0 /\ contig_from (sg_size s0) rest /\ nonzero_offs rest
+  | s0 :: rest => sg_idx s0 = fst w /\ sg_off s0 = 0 /\ contig_from (sg_size s0) rest /\ nonzero_offs rest /\
+                  Forall (fun s => sg_idx s = fst w) rest
   end.
 
 Definition cur_segs (cur : option walfile) : list seg :=
@@ -222,17 +223,19 @@ Qed.
 
 Lemma apply_loop_shape : forall segs e off cur done plan,
   apply_loop segs e off cur done = inr plan ->
+  (match cur with Some (i, _) => i + 1 = e | None => True end) ->
   exists files,
     plan = done ++ files /\
     flat_map snd files = cur_segs cur ++ segs /\
     match cur with
     | Some (i, ss) =>
         exists ss' rest, files = (i, ss ++ ss') :: rest /\ contig_from off ss' /\ nonzero_offs ss' /\
+                         Forall (fun s => sg_idx s = i) ss' /\
                          map fst rest = seqN e (length rest) /\ Forall wal_ok rest
     | None => map fst files = seqN e (length files) /\ Forall wal_ok files
     end.
 Proof.
-  induction segs as [|s tl IH]; intros e off cur done plan H; cbn in H.
+  induction segs as [|s tl IH]; intros e off cur done plan H Hcur; cbn in H.
   - inversion H; subst. destruct cur as [[i ss]|]; cbn.
     + exists [(i, ss)]. split; [reflexivity|]. split; [cbn; rewrite !app_nil_r; reflexivity|].
       exists [], []. rewrite app_nil_r. repeat split; constructor.
@@ -240,23 +243,27 @@ Proof.
   - destruct (sg_off s =? 0) eqn:E0.
     + destruct (sg_idx s =? e) eqn:Ei; cbn in H; [|discriminate].
       apply N.eqb_eq in E0, Ei.
-      destruct (IH _ _ _ _ _ H) as (files & Hp & Hf & ss' & rest & Hfiles & Hc & Hnz & Hidx & Hok).
+      assert (Hc' : sg_idx s + 1 = e + 1) by lia.
+      destruct (IH _ _ _ _ _ H Hc') as (files & Hp & Hf & ss' & rest & Hfiles & Hc & Hnz & Hu & Hidx & Hok).
       assert (Hw : wal_ok (sg_idx s, [s] ++ ss')).
       { unfold wal_ok; cbn. repeat split; try assumption; try (rewrite N.add_0_l in Hc; exact Hc). }
       destruct cur as [[i ss]|]; cbn in *.
       * exists ((i, ss) :: files). split; [rewrite Hp, <- app_assoc; reflexivity|].
         split; [cbn; rewrite Hf; reflexivity|].
         exists [], files. rewrite app_nil_r. split; [reflexivity|]. split; [exact I|]. split; [constructor|].
+        split; [constructor|].
         rewrite Hfiles. cbn. split; [rewrite Hidx, Ei; reflexivity|]. constructor; assumption.
       * exists files. split; [exact Hp|]. split; [exact Hf|].
         rewrite Hfiles. cbn. split; [rewrite Hidx, Ei; reflexivity|]. constructor; assumption.
-    + destruct (sg_off s =? off) eqn:Eo; cbn in H; [|discriminate].
+    + destruct (sg_idx s + 1 =? e) eqn:Ex; cbn in H; [|discriminate].
+      destruct (sg_off s =? off) eqn:Eo; cbn in H; [|discriminate].
       destruct cur as [[i ss]|]; [|discriminate].
-      apply N.eqb_neq in E0. apply N.eqb_eq in Eo.
-      destruct (IH _ _ _ _ _ H) as (files & Hp & Hf & ss' & rest & Hfiles & Hc & Hnz & Hidx & Hok).
+      apply N.eqb_neq in E0. apply N.eqb_eq in Eo, Ex.
+      destruct (IH _ _ _ _ _ H Hcur) as (files & Hp & Hf & ss' & rest & Hfiles & Hc & Hnz & Hu & Hidx & Hok).
       exists files. split; [exact Hp|]. cbn in *. split; [rewrite Hf, <- app_assoc; reflexivity|].
       exists (s :: ss'), rest. split; [rewrite Hfiles, <- app_assoc; reflexivity|].
-      split; [cbn; split; assumption|]. split; [constructor; assumption|]. split; assumption.
+      split; [cbn; split; assumption|]. split; [constructor; assumption|].
+      split; [constructor; [lia|assumption]|]. split; assumption.
 Qed.
 
 (** [v3_plan_contiguous]: when the planner accepts a list of eligible
@@ -271,7 +278,7 @@ Theorem v3_plan_contiguous_thm : forall (si : N) (segs : list seg) (plan : list 
 Proof.
   intros si segs plan H. unfold apply_segs in H. destruct segs as [|s tl].
   - inversion H; subst. repeat split; constructor.
-  - destruct (apply_loop_shape _ _ _ _ _ _ H) as (files & Hp & Hf & Hidx & Hok).
+  - destruct (apply_loop_shape _ _ _ _ _ _ H I) as (files & Hp & Hf & Hidx & Hok).
     cbn in Hp, Hf. subst plan. repeat split; assumption.
 Qed.
 
@@ -308,7 +315,7 @@ Lemma apply_loop_checks : forall segs e off cur done plan,
   apply_loop segs e off cur done = inr plan ->
   forall pre s post, segs = pre ++ s :: post ->
     (sg_off s = 0 -> sg_idx s = e + starts pre) /\
-    (sg_off s <> 0 -> sg_off s = run_bytes pre off).
+    (sg_off s <> 0 -> sg_off s = run_bytes pre off /\ sg_idx s + 1 = e + starts pre).
 Proof.
   induction segs as [|x tl IH]; intros e off cur done plan H pre s post E.
   - destruct pre; discriminate.
@@ -317,16 +324,21 @@ Proof.
       destruct (sg_off s =? 0) eqn:E0.
       * destruct (sg_idx s =? e) eqn:Ei; cbn in H; [|discriminate].
         apply N.eqb_eq in E0, Ei. split; [intros; lia|intros; contradiction].
-      * destruct (sg_off s =? off) eqn:Eo; cbn in H; [|discriminate].
-        apply N.eqb_neq in E0. apply N.eqb_eq in Eo. split; [intros; contradiction|intros; exact Eo].
+      * destruct (sg_idx s + 1 =? e) eqn:Ex; cbn in H; [|discriminate].
+        destruct (sg_off s =? off) eqn:Eo; cbn in H; [|discriminate].
+        apply N.eqb_neq in E0. apply N.eqb_eq in Eo, Ex.
+        split; [intros; contradiction|intros; split; [exact Eo|lia]].
     + cbn in E. inversion E; subst x tl. unfold starts. cbn [filter run_bytes].
       destruct (sg_off p =? 0) eqn:E0.
       * destruct (sg_idx p =? e) eqn:Ei; cbn in H; [|discriminate].
         destruct (IH _ _ _ _ _ H pre' s post eq_refl) as (A & B).
         split.
         -- intros Hz. rewrite (A Hz). unfold starts. cbn [length]. lia.
-        -- intros Hz. rewrite (B Hz). try reflexivity; f_equal; lia.
-      * destruct (sg_off p =? off) eqn:Eo; cbn in H; [|discriminate].
+        -- intros Hz. destruct (B Hz) as (B1 & B2). split.
+           ++ rewrite B1. try reflexivity; f_equal; lia.
+           ++ rewrite B2. unfold starts. cbn [length]. lia.
+      * destruct (sg_idx p + 1 =? e) eqn:Ex; cbn in H; [|discriminate].
+        destruct (sg_off p =? off) eqn:Eo; cbn in H; [|discriminate].
         destruct cur as [[i ss]|]; [|discriminate].
         destruct (IH _ _ _ _ _ H pre' s post eq_refl) as (A & B).
         split; assumption.
@@ -363,6 +375,23 @@ Proof.
   destruct (apply_loop_checks _ _ _ _ _ _ A pre s post (eq_sym E)) as (_ & H). apply Hne. apply H. exact Hz.
 Qed.
 
+(** (since 842e1af) a continuation segment that carries another index than
+    the WAL file being rebuilt — the snapshot's index plus the number of files
+    started so far, minus one — makes the restore fail. *)
+Theorem v3_foreign_continuation_errors_thm : forall (si : N) (pre : list seg) (s : seg) (post : list seg),
+  sg_off s <> 0 -> sg_idx s + 1 <> si + starts pre ->
+  exists e, apply_segs si (pre ++ s :: post) = inl e.
+Proof.
+  intros si pre s post Hz Hne.
+  destruct (apply_segs si (pre ++ s :: post)) as [e|plan] eqn:A; [exists e; reflexivity|].
+  exfalso. unfold apply_segs in A.
+  destruct (pre ++ s :: post) as [|x tl] eqn:E; [destruct pre; discriminate|].
+  destruct (apply_loop_checks _ _ _ _ _ _ A pre s post (eq_sym E)) as (_ & H). apply Hne. apply H. exact Hz.
+Qed.
+
+Example foreign_continuation_ex : apply_segs 0 [mkSeg 0 0 100 2; mkSeg 1 100 60 4] = inl ErrSegment.
+Proof. vm_compute. reflexivity. Qed.
+
 Example offset_gap_ex : apply_segs 0 [mkSeg 0 0 32 1; mkSeg 0 568 536 2] = inl ErrSegment.
 Proof. vm_compute. reflexivity. Qed.
 
@@ -376,7 +405,8 @@ Proof.
   { induction segs as [|x r IH]; intros e off cur done Hc; cbn; [discriminate|].
     destruct (sg_off x =? 0) eqn:E0.
     - destruct (sg_idx x =? e); cbn; [|discriminate]. apply IH. discriminate.
-    - destruct (sg_off x =? off) eqn:Eo; cbn; [|discriminate].
+    - destruct (sg_idx x + 1 =? e); cbn; [|discriminate].
+      destruct (sg_off x =? off) eqn:Eo; cbn; [|discriminate].
       destruct cur as [[i ss]|].
       + apply IH. discriminate.
       + rewrite (Hc eq_refl) in Eo. rewrite Eo in E0. discriminate. }
@@ -389,7 +419,7 @@ Qed.
     any ground truth) is accepted by the planner *)
 Lemma gap_free_apply_loop : forall truelen segs cur want done off,
   gap_free truelen segs cur want = true ->
-  (match cur with Some (_, o) => off = o | None => True end) ->
+  (match cur with Some (i, o) => off = o /\ i + 1 = want | None => True end) ->
   forall curw, (match cur, curw with
                 | Some _, Some _ => True | None, None => True | _, _ => False end) ->
   exists plan, apply_loop segs want off curw done = inr plan.
@@ -397,18 +427,21 @@ Proof.
   induction segs as [|s tl IH]; intros cur want done off G Hoff curw Hcw; cbn.
   - eexists; reflexivity.
   - cbn in G. destruct cur as [[i o]|].
-    + destruct curw as [[ci css]|]; [|contradiction]. subst off.
+    + destruct curw as [[ci css]|]; [|contradiction]. destruct Hoff as (-> & Hiw).
       destruct (negb (sg_off s =? 0) && (sg_idx s =? i) && (sg_off s =? o)) eqn:Cn.
-      * apply andb_prop in Cn. destruct Cn as (Cn & Eo). apply andb_prop in Cn. destruct Cn as (Nz & _).
-        apply negb_true_iff in Nz. rewrite Nz, Eo. cbn.
-        eapply IH; [exact G|reflexivity|exact I].
+      * apply andb_prop in Cn. destruct Cn as (Cn & Eo). apply andb_prop in Cn. destruct Cn as (Nz & Ei).
+        apply negb_true_iff in Nz. apply N.eqb_eq in Ei.
+        assert (Ex : sg_idx s + 1 =? want = true) by (apply N.eqb_eq; lia).
+        rewrite Nz, Ex, Eo. cbn.
+        eapply IH; [exact G|split; [reflexivity|exact Hiw]|exact I].
       * destruct ((sg_off s =? 0) && (sg_idx s =? want) && (o =? truelen i)) eqn:St; [|discriminate].
         apply andb_prop in St. destruct St as (St & _). apply andb_prop in St. destruct St as (Z & Ei).
-        rewrite Z, Ei. cbn. eapply IH; [exact G|cbn; lia|exact I].
+        rewrite Z, Ei. cbn. apply N.eqb_eq in Ei.
+        eapply IH; [exact G|cbn; split; lia|exact I].
     + destruct curw; [contradiction|]. cbn in G.
       destruct ((sg_off s =? 0) && (sg_idx s =? want) && true) eqn:St; [|discriminate].
       apply andb_prop in St. destruct St as (St & _). apply andb_prop in St. destruct St as (Z & Ei).
-      rewrite Z, Ei. cbn. eapply IH; [exact G|cbn; lia|exact I].
+      rewrite Z, Ei. cbn. apply N.eqb_eq in Ei. eapply IH; [exact G|cbn; split; lia|exact I].
 Qed.
 
 Theorem v3_gap_free_restores : forall truelen si segs,
@@ -448,36 +481,36 @@ Proof.
   eexists. vm_compute. reflexivity.
 Qed.
 
-(** A second undetected loss (found by the correspondence run): the index of a
-    continuation segment is never compared.  Index 0 is 100 bytes, index 1 is
-    segments 1/0 (100 bytes) and 1/100; with 1/0 removed, segment 1/100 is
-    appended to WAL file 0 and no error is raised. *)
-Definition fc_full : layout :=
-  [mkGen [(0, 1)] [mkSeg 0 0 100 2; mkSeg 1 0 100 3; mkSeg 1 100 60 4]].
+(** The second undetected loss found by the correspondence run (the index of a
+    continuation segment was never compared, so with 1/0 removed segment
+    1/100 was appended to WAL file 0) was repaired in /repo by 842e1af; the
+    former witness now fails, and in general the files of an accepted plan are
+    index-uniform. *)
 Definition fc_lost : layout :=
   [mkGen [(0, 1)] [mkSeg 0 0 100 2; mkSeg 1 100 60 4]].
-Definition fc_truelen (i : N) : N := if i =? 0 then 100 else 160.
 
-Theorem v3_foreign_continuation_refuted_thm :
-  exists (full lost : layout) (truelen : N -> N) (s : snap) (plan : list walfile),
-    gap_free truelen (filter (seg_eligible (sn_idx s) 0) (segs_of full (sn_gen s))) None (sn_idx s) = true /\
-    (exists plan0, restore_v3 full 0 = V3Ok s plan0) /\
-    lost = [mkGen (g_snaps (nth 0 full (mkGen [] [])))
-                  (filter (fun x => negb ((sg_idx x =? 1) && (sg_off x =? 0))) (g_segs (nth 0 full (mkGen [] []))))] /\
-    gap_free truelen (filter (seg_eligible (sn_idx s) 0) (segs_of lost (sn_gen s))) None (sn_idx s) = false /\
-    restore_v3 lost 0 = V3Ok s plan /\
-    forallb file_uniform plan = false.
+Example foreign_continuation_now_errors : restore_v3 fc_lost 0 = V3Err (mkSnap 0 0 1) ErrSegment.
+Proof. vm_compute. reflexivity. Qed.
+
+Lemma wal_ok_uniform : forall w, wal_ok w -> file_uniform w = true.
 Proof.
-  exists fc_full, fc_lost, fc_truelen, (mkSnap 0 0 1),
-         [(0, [mkSeg 0 0 100 2; mkSeg 1 100 60 4])].
-  repeat split; try (vm_compute; reflexivity).
-  eexists. vm_compute. reflexivity.
+  intros [i ss] H. unfold wal_ok in H. cbn in H. destruct ss as [|s0 rest]; [contradiction|].
+  destruct H as (Hs0 & _ & _ & _ & Hu). unfold file_uniform. cbn.
+  apply andb_true_intro. split; [apply N.eqb_eq; exact Hs0|].
+  apply forallb_forall. intros x Hx. rewrite Forall_forall in Hu. apply N.eqb_eq. apply Hu. exact Hx.
+Qed.
+
+(** [v3_plan_uniform]: every segment of a reconstructed WAL file carries that file's index *)
+Theorem v3_plan_uniform_thm : forall (si : N) (segs : list seg) (plan : list walfile),
+  apply_segs si segs = inr plan -> forallb file_uniform plan = true.
+Proof.
+  intros si segs plan A. destruct (v3_plan_contiguous_thm _ _ _ A) as (_ & Hok & _).
+  apply forallb_forall. intros w Hw. rewrite Forall_forall in Hok. apply wal_ok_uniform. apply Hok. exact Hw.
 Qed.
 
 (** What does hold (the part of "an accepted plan is gap-free" that the
-    listing can establish): an accepted plan whose files are uniform and whose
-    non-final files have their true length is gap-free.  The two refuted
-    statements above are exactly the two side conditions. *)
+    listing can establish): an accepted plan whose non-final files have their
+    true length is gap-free.  That side condition is exactly F8. *)
 Fixpoint nonfinal_complete (truelen : N -> N) (plan : list walfile) : Prop :=
   match plan with
   | [] => True
@@ -501,17 +534,17 @@ Qed.
 
 Lemma plan_gap_free : forall truelen plan want,
   map fst plan = seqN want (length plan) -> Forall wal_ok plan ->
-  Forall (fun w => file_uniform w = true) plan -> nonfinal_complete truelen plan ->
+  nonfinal_complete truelen plan ->
   forall cur, (match cur with
                | Some (i, o) => o = truelen i \/ plan = []
                | None => True end) ->
   gap_free truelen (flat_map snd plan) cur want = true.
 Proof.
-  induction plan as [|w tl IH]; intros want Hidx Hok Hu Hc cur Hcur; [reflexivity|].
-  destruct w as [i ss]. inversion Hok as [|? ? Hw Hok']; subst. inversion Hu as [|? ? Hu1 Hu']; subst.
+  induction plan as [|w tl IH]; intros want Hidx Hok Hc cur Hcur; [reflexivity|].
+  destruct w as [i ss]. inversion Hok as [|? ? Hw Hok']; subst.
   cbn in Hidx. inversion Hidx as [[Hi Hrest]].
   unfold wal_ok in Hw. cbn in Hw. destruct ss as [|s0 rest]; [contradiction|].
-  destruct Hw as (Hs0 & Hz & Hcg & Hnz).
+  destruct Hw as (Hs0 & Hz & Hcg & Hnz & Hun).
   cbn [flat_map snd app gap_free].
   assert (Hcont : (match cur with
                    | Some (i1, off) => negb (sg_off s0 =? 0) && (sg_idx s0 =? i1) && (sg_off s0 =? off)
@@ -523,10 +556,8 @@ Proof.
   { rewrite Hz, Hs0, <- Hi, !N.eqb_refl. cbn.
     destruct cur as [[i1 o1]|]; [|reflexivity]. destruct Hcur as [->|H]; [apply N.eqb_refl|discriminate]. }
   rewrite Hst.
-  unfold file_uniform in Hu1. cbn in Hu1. apply andb_prop in Hu1. destruct Hu1 as (_ & Hur).
-  rewrite forallb_forall in Hur.
   assert (Hrest_idx : Forall (fun s => sg_idx s = sg_idx s0) rest).
-  { apply Forall_forall. intros x Hx. specialize (Hur _ Hx). apply N.eqb_eq in Hur. rewrite Hur, Hs0. reflexivity. }
+  { apply Forall_forall. intros x Hx. rewrite Forall_forall in Hun. rewrite (Hun _ Hx), Hs0. reflexivity. }
   try rewrite <- app_assoc.
   rewrite (gap_free_continue truelen rest (sg_idx s0) (sg_size s0) (flat_map snd tl) (want + 1) Hcg Hnz Hrest_idx).
   apply IH; try assumption.
@@ -537,10 +568,10 @@ Qed.
 
 Theorem v3_ok_gap_free_partial : forall truelen si segs plan,
   apply_segs si segs = inr plan ->
-  Forall (fun w => file_uniform w = true) plan -> nonfinal_complete truelen plan ->
+  nonfinal_complete truelen plan ->
   gap_free truelen segs None si = true.
 Proof.
-  intros truelen si segs plan A Hu Hc.
+  intros truelen si segs plan A Hc.
   destruct (v3_plan_contiguous_thm _ _ _ A) as (Hidx & Hok & Hf). rewrite <- Hf.
   apply plan_gap_free; try assumption. exact I.
 Qed.
